@@ -10,6 +10,8 @@ Confirms a seeded change produced in a scratch worktree and files it under
 Scratch copies live under /tmp and are removed."""
 import json, os, subprocess, sys, tempfile, shutil, re
 ROOT = os.path.dirname(os.path.dirname(os.path.abspath(__file__)))
+sys.path.insert(0, os.path.join(ROOT, "scripts"))
+import evrun
 ENV = dict(os.environ, GOFLAGS="-mod=mod", GOPROXY="off", GOSUMDB="off", GOTOOLCHAIN="local", GOWORK="off")
 wt, sid, prop = sys.argv[1], sys.argv[2], sys.argv[3]
 allprops = "--all" in sys.argv
@@ -75,10 +77,11 @@ try:
         props = sorted(json.load(open(os.path.join(ROOT, "scripts", "manifest_src.json")))["checks"].keys())
     det = {}
     outdir = tempfile.mkdtemp(prefix="evseedout.")
+    results = evrun.run_props(d, props, outdir, work=os.path.join(outdir, "work"))
     for pid in props:
-        pr = subprocess.run([os.environ.get("EVCHECK_BIN", os.path.join(ROOT, "bin", "evcheck")), "-repo", d, "-verif", ROOT, "-out", outdir, pid], env=ENV, capture_output=True, text=True)
-        lines = [l.strip() for l in pr.stdout.splitlines() if l.startswith("  C") or l.startswith("UNDECIDED")]
-        det[pid] = {"exit": pr.returncode, "reports": [l[:400] for l in lines[:6]]}
+        rc, text = results[pid]
+        lines = [l.strip() for l in text.splitlines() if l.startswith("  C") or l.startswith("UNDECIDED")]
+        det[pid] = {"exit": rc, "reports": [l[:400] for l in lines[:6]]}
     shutil.rmtree(outdir, ignore_errors=True)
     meta["checks"] = det
 finally:
